@@ -633,12 +633,40 @@ def walk_trace(inv, j, k):
                 log.append(("update", [int(x) for x in p[1:7]], dict(states), list(running), int(p[7]) if len(p) > 7 else None))
             elif p[0] == "dirty":
                 log.append(("verdict", int(p[1]), p[2]))
+            elif p[0] == "quiesce":
+                log.append(("quiesce", dict(states), list(running)))
         out.append({"graph": g, "states": dict(states), "log": log, "started": started, "failed": failed,
                     "ran": ph["run"] is not None, "kind": ph["kind"], "reloaded": ph["reloaded"]})
     return out
 
 
+def monitor_no_idle_wait(run, where, inv, j, k):
+    """only ordering inputs order: whenever the loop goes to wait for a running command, every step still waiting (Want) has a
+    producer of an explicit / implicit / order-only input that is not Done - nothing else (a reported dependency, a validation
+    edge) may hold a step back"""
+    for ph in walk_trace(inv, j, k):
+        g = ph["graph"]
+        if g.error:
+            continue
+        for ev in ph["log"]:
+            if ev[0] != "quiesce":
+                continue
+            states = ev[1]
+            for b, st in states.items():
+                if st != "Want" or b >= len(g.builds):
+                    continue
+                bd = g.builds[b]
+                prods = {g.files[f]["input"] for f in bd["ins"][: bd["explicit"] + bd["implicit"] + bd["order_only"]]}
+                prods.discard(None)
+                if all(states.get(p) == "Done" for p in prods):
+                    outs = [g.files[o]["name"] for o in bd["outs"]]
+                    run.report_failure(None, "n2 waits for a running command while step %d (%s) is held back although every producer of its "
+                                             "declared inputs is done: something that is not an ordering input orders it" % (b, ",".join(outs)[:60]), where)
+                    return
+
+
 def monitor_c01(run, where, inv, j, k):
+    monitor_no_idle_wait(run, where, inv, j, k)
     seen = {}
     for pi, ph in enumerate(walk_trace(inv, j, k)):
         g = ph["graph"]
